@@ -5,6 +5,7 @@ mod c03;
 mod c04;
 mod c05;
 mod c06;
+mod c07;
 mod c11;
 mod c13;
 mod c11_live;
@@ -22,6 +23,7 @@ pub fn run(engine: &str, toks: Vec<Tok>) -> Vec<Tok> {
         "c05_codec" => c05::codec(toks),
         "c06_decode" => c06::decode(toks),
         "c06_encode" => c06::encode(toks),
+        "c07_run" => c07::run(toks),
         "c11_checksum" => c11::checksum(toks),
         "c11_serialize_echo" => c11::serialize_echo(toks),
         "c11_decode_requests" => c11::decode_requests(toks),
@@ -31,6 +33,7 @@ pub fn run(engine: &str, toks: Vec<Tok>) -> Vec<Tok> {
         "c13_creds" => c13::creds(toks),
         "c13_validate" => c13::validate(toks),
         "c13_wizard" => c13::wizard_roundtrip(toks),
+        "c13_hosts" => c13::hosts(toks),
         "c15_connect" => c15::connect(toks),
         "c15_make_auth" => c15::make_auth(toks),
         "c15_udp" => c15::udp(toks),
